@@ -37,7 +37,14 @@ LEVEL_NOTE = ("Which form the signal of an undefined statistic takes (no result 
               "every uniform sequence) and compared bit-for-bit with the recorded draws as a statistic (extra.resample_layer); "
               "the verdicts on the draws are property-level: N_obs events each, J of them, support inside the union "
               "histogram, bin totals within a 1e-12 two-sided binomial tail of N_obs*J*Lambda_U(k)/N_U. "
-              "The KS p-value of calibration_test is scipy's and is not modelled (the KS distance and the skip rule are).")
+              "The KS p-value of calibration_test is scipy's and is not modelled (the KS distance and the skip rule are)."
+              " EXCLUDED input classes (not generated; the behaviour of the code on them is proved in Properties/C10_Findings.lean): "
+              "(A) a non-empty observed catalog without any event inside the magnitude range - the clause on undefined statistics "
+              "is conditioned on an EMPTY observed catalog, the quantifier's non-empty kinds all have an event in range, and the "
+              "documented statistics are not defined for N_obs = 0; (B) synthetic catalogs changed in place by the caller AFTER "
+              "forecast.expected_rates was filled - the text says the statistics are computed from the forecast's mean gridded "
+              "rates, expected_rates is a public member the caller may set, and the quantifier covers storage configurations, not "
+              "caller-side mutation between cache and test. Both readings are stated in notes/C10.md.")
 DESIGN_REF = "DESIGN.md §4 C10"
 TECHNIQUE = "Lean 4 model generic over RealOps (Float driver / real-number theorems) + differential correspondence + oracle"
 
@@ -97,16 +104,31 @@ RULE = ("catalog forecasts of 1..30 synthetic catalogs (each empty with a per-ca
 
 TOL = 1e-9
 
-# Sub-classes of inputs on which UNCHANGED pyCSEP itself departs from the property (genuine-defect candidates, see
-# notes/C10.md "Observed"): they are not generated while their name is listed here, so that the check stays green until
-# it is decided whether pyCSEP is repaired ("fix:" commit) or the behaviour is recorded as a known finding.
-#  obs-all-below-min-magnitude: the observed catalog is not empty but NONE of its events lies in the magnitude range
-#    (all below region.magnitudes[0]); magnitude_test / resampled_magnitude_test / MLL_magnitude_test look at
-#    event_count for their short-circuit, go on with N_obs = 0 and report status 'normal' with d_obs = 0 and quantile
-#    (1.0, 1.0) / (None, None), the MLL test a nan statistic with quantile (1.0, 1.0).
-#  expected-rates-read-before-inplace-change: call sequence get_expected_rates() (or any test / plot that caches
-#    forecast.expected_rates) -> synthetic catalogs changed in place -> tests: the cached mean rates are those of the
-#    catalogs BEFORE the change while every D_j / S_j / L_j is computed from the catalogs AFTER it.
+# Two input / call-sequence classes that are EXCLUDED from the generators because the property text does not decide them
+# (decision of round 4: they stay excluded; the behaviour of the unchanged code on each is a THEOREM about the faithful
+# model, Properties/C10_Findings.lean, so DESIGN can cite what happens there):
+#  obs-all-below-min-magnitude: the observed catalog is NOT empty but none of its events lies in the magnitude range (all
+#    below region.magnitudes[0]).  Outside the text because (1) the clause on undefined statistics is conditioned on "When
+#    the observed catalog is empty" - this catalog is not empty, and the clause names no other trigger; (2) the quantifier
+#    enumerates the observed catalogs "empty, single event, events in never-sampled cells, many events per cell": every
+#    non-empty kind has an event the statistic is defined for; (3) the documented statistics (theory.rst; Savran et al.
+#    2020; Serafini et al. 2024) are defined for N_obs >= 1 events inside the magnitude range and say nothing for
+#    N_obs = 0 with a non-empty catalog, and the docstrings make cutting the observation to the forecast's magnitude range
+#    the caller's job ("CSEPCatalog filtered to be consistent with the forecast").  An observation that is NOT cut but keeps
+#    at least one event in range IS judged (N_obs = sum_k Omega(k), round 2).  What the code does: finding_A_mtest_all_below,
+#    finding_A_reports_perfect_score (status normal, statistic 0, quantile (n/n, n/n)), finding_A_rmtest_all_below.
+#  expected-rates-read-before-inplace-change: get_expected_rates() (or any test / plot that fills forecast.expected_rates)
+#    -> the caller changes the synthetic catalogs in place -> tests.  Outside the text because (1) the property says the
+#    statistics are "computed from the forecast's mean gridded rates and each synthetic catalog's gridded counts" and does
+#    not say that the mean rates have to be RE-derived from the catalogs at every call: forecast.expected_rates is a public,
+#    documented member (it can even be handed to the constructor, expected_rates=...), so "the forecast's mean gridded rates"
+#    are by the API whatever that member holds, and keeping it in step with catalogs he mutates himself is the caller's
+#    duty; (2) the quantifier covers forecasts "in memory or streamed from file" (configurations), not a mutation by the
+#    caller BETWEEN the filling of the cache and a test; under the reading "rates as cached" the code is right, under the
+#    reading "rates of the catalogs as they are now" it is wrong - the text does not choose.  In-place changes BEFORE any
+#    rates are cached ARE judged (every statistic then comes from the same catalogs).  What the code does:
+#    stale_cache_result (old rates combined with the new catalogs), stale_cache_not_coherent (the invariant of
+#    session_history_free is violated, so that theorem does not apply).
 AWAITING_DECISION = ["obs-all-below-min-magnitude", "expected-rates-read-before-inplace-change"]
 
 
